@@ -7,6 +7,8 @@ CONSTANTS
   MaxFrames = 3
   BufferOversized = FALSE
   NonceReuse = FALSE
+  AllowReconnect = FALSE
+  NoncePerSession = FALSE
   DupDeliver = FALSE
 INVARIANTS C14_InOrderExactlyOnce C14_NothingLost C14_FreshNonce C14_Encrypted C14_OversizedNotSent C14_OversizedNotAccepted C14_OversizedCloses C14_NotBuffered
 PROPERTIES C14_RefusedSendNoEffect
